@@ -310,11 +310,12 @@ func c13RequestObjects(c *run.Ctx) {
 				cl["scope"] = "openid fosite offline"
 				return world.RawJWT(map[string]interface{}{"alg": "RS256", "kid": "k0"}, cl, p[2])
 			}(), ""},
+			{"short-state-inside-object", world.SignJWT(keys.ClientRSA[0], "RS256", map[string]interface{}{"kid": "k0"}, func() map[string]interface{} { m := claims(); m["state"] = "x"; return m }()), "short-state"},
 			{"garbage", "not.a.jwt", ""},
 			{"expired-object", world.SignJWT(keys.ClientRSA[0], "RS256", map[string]interface{}{"kid": "k0"}, func() map[string]interface{} { m := claims(); m["exp"] = time.Now().Add(-time.Hour).Unix(); return m }()), "expired"},
 		}
 		for _, v := range vs {
-			for _, via := range []string{"request", "request_uri-registered", "request_uri-unregistered"} {
+			for _, via := range []string{"request", "request_uri-registered", "request_uri-unregistered", "request_uri-case-variant"} {
 				for _, client := range []string{"ro", "ro-plain"} {
 					q := url.Values{"client_id": {client}, "response_type": {"code"}, "scope": {"openid"}, "state": {"query-state-0123456789"}, "redirect_uri": {"https://ro.example/cb"}}
 					switch via {
@@ -324,22 +325,27 @@ func c13RequestObjects(c *run.Ctx) {
 						q.Set("request_uri", "https://client.example/ro.jwt")
 					case "request_uri-unregistered":
 						q.Set("request_uri", "https://client.example/other.jwt")
+					case "request_uri-case-variant":
+						q.Set("request_uri", "https://client.example/RO.jwt")
 					}
 					obj := v.obj
 					w.Fetch = func(u string) (int, string) { return 200, obj }
 					out := w.Authorize(q, world.Consent{})
-					honoured := out.Params.Get("state") == "object-state-0123456789" && out.Err == nil
+					honoured := (out.Params.Get("state") == "object-state-0123456789" || v.signedBy == "short-state" && out.Params.Get("state") == "x") && out.Err == nil
 					mayHonour := true
 					why := ""
 					switch {
 					case client == "ro-plain":
 						mayHonour, why = false, "client-without-registered-keys"
-					case via == "request_uri-unregistered":
+					case via == "request_uri-unregistered" || via == "request_uri-case-variant":
 						mayHonour, why = false, "request_uri-not-registered"
 					case v.signedBy == "":
 						mayHonour, why = false, "not-signed-by-registered-key"
 					case v.signedBy == "expired":
 						mayHonour, why = false, "expired-object"
+					case v.signedBy == "short-state":
+						// properly signed, but the state it carries is shorter than the configured minimum: the request is not acceptable
+						mayHonour, why = false, "state-below-minimum-inside-object"
 					case v.signedBy == "none":
 						if regAlg != "" && regAlg != "none" {
 							mayHonour, why = false, "unsigned-but-registration-names-algorithm"
